@@ -5,10 +5,11 @@ set -e
 DIR="$(cd "$(dirname "$0")/.." && pwd)"
 export GOWORK=off GOFLAGS=-mod=mod GOPROXY=off GOSUMDB=off GOTOOLCHAIN=local
 cd "$DIR/harness"
-cp /repo/hermes/go.sum go.sum
+REPO="${VERIF_REPO:-/repo}"
+cp "$REPO/hermes/go.sum" go.sum
 mkdir -p bin "$DIR/evidence" "$DIR/replays"
 go build -o bin/extract ./cmd/extract
-./bin/extract -repo /repo -out "$DIR/lean/HermesModel/Generated" -facts "$DIR/evidence/facts.json"
+./bin/extract -repo "$REPO" -out "$DIR/lean/HermesModel/Generated" -facts "$DIR/evidence/facts.json"
 go build -tags verif -o bin/check ./cmd/check
 cd "$DIR/lean"
 lake build
